@@ -71,6 +71,22 @@ Theorem C09_delete : forall key open dec k st st' id, dir_delete st id = Some st
 Proof. exact c_delete. Qed.
 Print Assumptions C09_delete.
 
+(* Delete(ids...) on the directory (onDiskStore.Delete, WriteControlledStore.DeleteUnchecked): the loop ends with the error
+   of the first os.Remove that fails (extracted).  Whatever it returns, every ID is either untouched or gone; when it
+   reports success EVERY ID of the batch is gone (and no other); the listing is exactly what can still be read. *)
+Theorem C09_delete_batch_structure : disk_delete_stops_with_the_error = true.
+Proof. exact disk_delete_structure_ok. Qed.
+Print Assumptions C09_delete_batch_structure.
+
+Theorem C09_delete_batch : forall key open dec k ids st,
+  let r := dir_delete_all st ids in
+  (forall id, c_get key open dec k (fst r) id = c_get key open dec k st id \/ c_get key open dec k (fst r) id = GNoFile)
+  /\ (snd r = true -> forall id,
+        c_get key open dec k (fst r) id = if existsb (N.eqb id) ids then GNoFile else c_get key open dec k st id)
+  /\ (forall id, In id (dir_list (fst r)) <-> dir_get (fst r) id <> None).
+Proof. exact c_delete_all. Qed.
+Print Assumptions C09_delete_batch.
+
 (* every history of Set/Delete on the same and on different IDs (Get/Set/Delete of one ID are atomic under the per-ID
    lock): each ID reads back the bytes of its last Set, or "no file" after a Delete; List yields exactly the stored
    IDs, each once *)
@@ -146,8 +162,9 @@ Print Assumptions C09_altered_is_error_refuted.
 (* ---- concurrent readers and writers of one ID: the per-message lock table (Model/LockTable.v) ----
    Goroutines run acquire ; Lock/RLock ; wrapped store ; unlock ; release in any interleaving, any number of goroutines,
    any message IDs, any choice of the pool.  The translator reads from store/write_controlled_store.go whether
-   releaseSyncRef decrements the counter inside the critical section and whether acquireSyncRef resets the counter of an
-   object it inserts; the model runs the protocol these facts describe. *)
+   releaseSyncRef decrements the counter inside the critical section, whether acquireSyncRef resets the counter of an
+   object it inserts and whether every releaseSyncRef is called with the ID that was acquired (Delete(ids...) is the
+   per-ID loop acquire ; Lock ; impl.Delete ; Unlock ; release); the model runs the protocol these facts describe. *)
 Theorem C09_lock_table_structure : lock_table_structure = true.
 Proof. exact lock_table_structure_ok. Qed.
 Print Assumptions C09_lock_table_structure.
@@ -155,20 +172,26 @@ Print Assumptions C09_lock_table_structure.
 (* for EVERY schedule: two goroutines that are inside the wrapped store on the same message ID are both readers
    (never a writer together with anybody else) *)
 Theorem C09_lock_table_exclusive : forall n sched,
-  exclusive (run release_decrements_under_lock acquire_resets_counter (init n) sched).
+  exclusive (run release_decrements_under_lock acquire_resets_counter release_uses_acquired_id (init n) sched).
 Proof. exact exclusive_code. Qed.
 Print Assumptions C09_lock_table_exclusive.
 
 (* the release protocol before C09-fix-2 (decrement outside w.lock, re-check inside): a schedule of 4 goroutines puts a
    writer and a reader of message 7 inside together (and pools one object twice) *)
-Theorem C09_lock_table_exclusive_old_release_refuted : exists n sched, ~ exclusive (run false true (init n) sched).
+Theorem C09_lock_table_exclusive_old_release_refuted : exists n sched, ~ exclusive (run false true true (init n) sched).
 Proof. exact old_release_not_exclusive. Qed.
 Print Assumptions C09_lock_table_exclusive_old_release_refuted.
 
 (* without `v.counter = 1` for an object taken from the pool exclusion fails as well *)
-Theorem C09_lock_table_exclusive_without_reset_refuted : exists n sched, ~ exclusive (run true false (init n) sched).
+Theorem C09_lock_table_exclusive_without_reset_refuted : exists n sched, ~ exclusive (run true false true (init n) sched).
 Proof. exact noreset_not_exclusive. Qed.
 Print Assumptions C09_lock_table_exclusive_without_reset_refuted.
+
+(* a Delete(ids...) that releases every lock object under the FIRST ID of the batch: 3 goroutines, messages 7 and 8 *)
+Theorem C09_lock_table_exclusive_wrong_release_id_refuted :
+  exists n sched, ~ exclusive (run true true false (init n) sched).
+Proof. exact wrongkey_not_exclusive. Qed.
+Print Assumptions C09_lock_table_exclusive_wrong_release_id_refuted.
 
 (* non-vacuity: the assumptions are satisfiable *)
 Example C09_assumptions_satisfiable :
